@@ -1,6 +1,8 @@
 (* C17 — colour is presentation only. *)
 From WD Require Import Base Wire Conn Color LetterId Show MatcherParse.
-From WD Require Import ColorProofs ShowProofs.
+From WD Require Import Protocol Matcher Session Shipped.
+From WD Require Import ColorProofs ShowProofs ConnMgrProofs.
+From WD Require Import SessionColorA SessionColorB SessionColorJ SessionColorC SessionColorD SessionColorE SessionColorG SessionColorH SessionColorI SessionColorK SessionColorL.
 Open Scope N_scope.
 
 (* with colour disabled color() adds nothing *)
@@ -37,6 +39,41 @@ Print Assumptions C17_repr_never_emits_esc.
 Theorem C17_parse_ignores_colour : forall t t', no_color t = no_color t' -> parse t = parse t'.
 Proof. intros t t' H. unfold parse. rewrite H. reflexivity. Qed.
 Print Assumptions C17_parse_ignores_colour.
+
+(* ---- THE WHOLE SESSION (SessionColorA..L) -------------------------------------------------------------
+   LineStrips l1 l0: same kind of output line, same payload, and the two texts are equal once escape
+   sequences are removed, whatever follows them; LineExact: no_color (coloured text) = the plain text,
+   character for character. *)
+
+(* any protocol data, any log lines, any commands (list, filter, breakpoint, matcher, connection, help,
+   unknown ones), log mode and gdb mode, any start-up matchers: the output with colour and the output
+   without are, line by line, equal after stripping.  No hypothesis. *)
+Theorem C17_session : forall P display stop un ig es,
+  Forall2 (Forall2 LineStrips)
+    (snd (run P (mkTop None (init_sess display stop true un ig)) es))
+    (snd (run P (mkTop None (init_sess display stop false un ig)) es)).
+Proof. exact C17_session_color_invariant. Qed.
+Print Assumptions C17_session.
+
+(* with colour disabled the tool emits no escape sequence of its own: if the input pieces it echoes
+   (non-message lines, command texts, interface/message names, titles) are ESC-free, so is every output line *)
+Theorem C17_off_no_escape : forall P, pdb_clean P -> forall es T, TOff T -> Forall ev_off_ok es ->
+  TOff (fst (run P T es)) /\ Forall (Forall oline_clean) (snd (run P T es)).
+Proof. exact C17_off_emits_no_escape. Qed.
+Print Assumptions C17_off_no_escape.
+
+(* both halves, over the shipped protocol descriptions (regenerated from /repo on every run):
+   coloured output, stripped, IS the uncoloured output *)
+Theorem C17_session_exact : forall display stop un ig es,
+  mclean display -> mclean stop -> Forall ev_off_ok es ->
+  Forall2 (Forall2 LineExact)
+    (snd (run shipped_db (mkTop None (init_sess display stop true un ig)) es))
+    (snd (run shipped_db (mkTop None (init_sess display stop false un ig)) es)).
+Proof. exact C17_session_color_exact_shipped. Qed.
+Print Assumptions C17_session_exact.
+
+Theorem C17_shipped_names_clean : pdb_clean shipped_db.
+Proof. exact shipped_clean. Qed.
 
 Example C17_ex :
   no_color (color true good_color (s2l "new ") ++ color true object_type_color (s2l "wl_surface") ++ color true object_id_color (s2l "@3a"))
